@@ -507,74 +507,7 @@ func sridRule(p *core.Program, r *core.Report, rule string) {
 	}
 	sridReaderEval(p, r, rule)
 	// writer
-	wfn := mustFn(p, r, rule, "encoding/ewkb", "Write")
-	if wfn == nil {
-		return
-	}
-	var sridCall ssa.Value
-	for _, c := range eng.Calls(wfn) {
-		if c.Common().IsInvoke() && c.Common().Method.Name() == "SRID" {
-			sridCall = c.Value()
-		}
-	}
-	okw, why := false, "writer does not write uint32(g.SRID()) under the SRID flag"
-	if sridCall != nil {
-		for _, c := range eng.Calls(wfn) {
-			if !eng.IsCallTo(c, "encoding/binary", "Write") {
-				continue
-			}
-			data := eng.Strip(c.Common().Args[2])
-			if data != sridCall {
-				continue
-			}
-			// the write is dominated by the true edge of (type & 0x20000000) != 0
-			for d := c.Block(); d != nil && d.Idom() != nil; d = d.Idom() {
-				id := d.Idom()
-				cmp, okc := eng.EdgeCmp(id, 0)
-				if !okc || id.Succs[0] != d || cmp.Op != token.NEQ {
-					continue
-				}
-				and, isAnd := cmp.X.(*ssa.BinOp)
-				if !isAnd || and.Op != token.AND {
-					continue
-				}
-				if m, isC := eng.ConstInt(and.Y); isC && m == specEWKBSRIDFlag {
-					// and the flag is or-ed in under srid != 0
-					if phi, isPhi := and.X.(*ssa.Phi); isPhi {
-						for i, e := range phi.Edges {
-							if or, isOr := e.(*ssa.BinOp); isOr && or.Op == token.OR {
-								if m2, isC2 := eng.ConstInt(or.Y); isC2 && m2 == specEWKBSRIDFlag {
-									pred := phi.Block().Preds[i]
-									for dd := pred; dd != nil && dd.Idom() != nil; dd = dd.Idom() {
-										cmp2, ok2 := eng.EdgeCmp(dd.Idom(), 0)
-										if ok2 && dd.Idom().Succs[0] == dd && cmp2.Op == token.NEQ && cmp2.X == sridCall {
-											if z, isZ := eng.ConstInt(cmp2.Y); isZ && z == 0 {
-												okw = true
-											}
-										}
-										if dd == pred && dd.Idom() != nil {
-											// also accept the or block itself being the true successor
-										}
-									}
-									if !okw {
-										// or-block is directly the true successor of srid != 0
-										ob := or.Block()
-										if ob.Idom() != nil {
-											cmp2, ok2 := eng.EdgeCmp(ob.Idom(), 0)
-											if ok2 && ob.Idom().Succs[0] == ob && cmp2.Op == token.NEQ && cmp2.X == sridCall {
-												okw = true
-											}
-										}
-									}
-								}
-							}
-						}
-					}
-				}
-			}
-		}
-	}
-	r.Check(okw, rule, "encoding/ewkb.Write/srid", p.Pos(wfn.Pos()), true, "flag 0x20000000 set iff g.SRID() != 0 and uint32(g.SRID()) written under that flag", why)
+	sridWriterEval(p, r, rule)
 }
 
 func sqlWrappers(p *core.Program, r *core.Report, rule string) {
